@@ -211,6 +211,39 @@ def _verdict_cells(ctx):
             got_args["hashed"] = args[0]
             return ROOT
         return NotImplemented
+    # honest blocks of 1..9 transactions, with the library's own merkle_root followed in the tree (its level function pads odd levels in
+    # place, which a check placed after it can see) and the pairing hash as a free function
+    import hashlib as _hl
+    par = lambda a, b: _hl.sha256(b"parent:" + bytes(a) + bytes(b)).digest()
+
+    def ref_root(hs):
+        lvl = list(hs)
+        while len(lvl) > 1:
+            if len(lvl) % 2:
+                lvl.append(lvl[-1])
+            lvl = [par(lvl[i], lvl[i + 1]) for i in range(0, len(lvl), 2)]
+        return lvl[0]
+
+    def opaque2(name, args, kw):
+        if name == "merkle_parent":
+            return par(args[0], args[1])
+        return NotImplemented
+    for n in range(1, 10):
+        ctx.count("cells")
+        txh = [bytes([i + 1]) * 32 for i in range(n)]
+        root = ref_root([h[::-1] for h in txh])[::-1]
+        for label, hdr, want_v in (("its own root", root, True), ("another root", bytes(32), False)):
+            me = Obj("block", "Block", {"merkle_root": hdr, "tx_hashes": list(txh), "txs": None})
+            try:
+                r = Evaluator(ctx.repo, opaque=opaque2).call(spec2, [], self_obj=me)
+            except Raised as x:
+                r = "raises %s" % x.name
+            if r is not want_v:
+                out.append(ctx.bad(spec2, "an honest block of %d distinct transaction(s) whose header carries %s is reported %s" % (n, label, r), fn2, mod2, key="block-verdict-honest"))
+                break
+        else:
+            continue
+        break
     v2 = {}
     for label, hdr_root in (("equal", ROOT[::-1]), ("not reversed", ROOT), ("other", bytes(32))):
         ctx.count("cells")
@@ -290,7 +323,83 @@ def _block_hash_cells(ctx, hf, hm, shown):
         "the serialisation" if given.get("x") == b"HEADER80" else "something else than the serialisation"), hf, hm, key="hash")
 
 
+def _header_cells(ctx):
+    """Block.parse_header / Block.serialize evaluated on 80-byte headers whose bytes all differ (so every field's position, width and byte order
+    shows) and whose version / timestamp take the boundary values of an unsigned 32-bit field: the parser must hand the constructor
+    version(4 LE), prev_block(32, reversed), merkle_root(32, reversed), timestamp(4 LE), bits(4), nonce(4), and serialize must write the same
+    80 bytes back.  None when outside the evaluator's subset."""
+    from sa.cells import ClassRef, Evaluator, FileStandIn, Obj, Raised, Undecided
+    wspec, rspec = "block:Block.serialize", "block:Block.parse_header"
+    wm, wf = rl.get(ctx, wspec)
+    rm, rf = rl.get(ctx, rspec)
+    out = []
+    try:
+        for ver, ts in ((0x04030201, 0x60504030), (0xFFFFFFFF, 0x80000000), (0x80000001, 0), (1, 0xFFFFFFFF)):
+            ctx.count("cells")
+            raw = ver.to_bytes(4, "little") + bytes(range(10, 42)) + bytes(range(50, 82)) + ts.to_bytes(4, "little") + bytes([0xA1, 0xA2, 0xA3, 0xA4]) + bytes([0xB1, 0xB2, 0xB3, 0xB4])
+            want = {"version": ver, "prev_block": bytes(range(10, 42))[::-1], "merkle_root": bytes(range(50, 82))[::-1], "timestamp": ts, "bits": bytes([0xA1, 0xA2, 0xA3, 0xA4]),
+                    "nonce": bytes([0xB1, 0xB2, 0xB3, 0xB4])}
+            st = FileStandIn(raw + b"TAIL")
+            try:
+                b = Evaluator(ctx.repo).call(rspec, [st], self_obj=ClassRef("block", "Block"))
+            except Raised as x:
+                out.append(ctx.bad(rspec, "a header with version %#x and timestamp %#x cannot be parsed (%s)" % (ver, ts, x.name), rf, rm, key="rspec:header"))
+                break
+            got = {k: b.attrs.get(k) for k in want} if isinstance(b, Obj) else {}
+            diff_ = [k for k in want if got.get(k) != want[k]]
+            if diff_ or st.pos != 80:
+                what = "reads %d bytes" % st.pos if st.pos != 80 else "field `%s` is %s, the protocol says %s" % (
+                    diff_[0], got.get(diff_[0]).hex() if isinstance(got.get(diff_[0]), bytes) else got.get(diff_[0]), want[diff_[0]].hex() if isinstance(want[diff_[0]], bytes) else want[diff_[0]])
+                out.append(ctx.bad(rspec, "header reader differs from the 80-byte protocol header: %s" % what, rf, rm, key="rspec:header"))
+                break
+            try:
+                w = Evaluator(ctx.repo).call(wspec, [], self_obj=b)
+            except Raised as x:
+                out.append(ctx.bad(wspec, "a parsed header with version %#x and timestamp %#x cannot be serialised again (%s)" % (ver, ts, x.name), wf, wm, key="wr:header"))
+                break
+            if w != raw:
+                where = next((i for i in range(min(len(w), 80)) if w[i] != raw[i]), min(len(w), 80)) if isinstance(w, bytes) else 0
+                out.append(ctx.bad(wspec, "header writer and reader disagree: serialize(parse_header(h)) differs from h at byte %d (%d bytes written)" % (where, len(w) if isinstance(w, bytes) else -1),
+                                   wf, wm, key="wr:header"))
+                break
+    except Undecided:
+        return None
+    if not out:
+        out = [ctx.ok(wspec, "writer ≡ reader (serialize(parse_header(h)) = h on headers with all-different bytes and boundary version / timestamp)", wf, wm, key="wr:header"),
+               ctx.ok(wspec, "writer equals the 80-byte protocol header", wf, wm, key="spec:header"),
+               ctx.ok(rspec, "reader equals the 80-byte protocol header", rf, rm, key="rspec:header"),
+               ctx.ok(rspec, "fields read sum to 80 bytes", rf, rm, key="sum80")]
+    return out
+
+
 def c17_5(ctx):
+    hdr = _header_cells(ctx)
+    if hdr is not None:
+        return hdr + _c17_5_rest(ctx)
+    return _c17_5_layout(ctx)
+
+
+def _c17_5_rest(ctx):
+    """Block.hash and the merkleblock reader (the parts of C17.5 other than the header codec)"""
+    out = []
+    hm, hf = rl.get(ctx, "block:Block.hash")
+    cfg = cfg_of(hf)
+    r = [ast.unparse(expand(hf, n.id, n.ast.value)) for n in cfg.returns()]
+    if r == ["hash256(self.serialize())[::-1]"]:
+        out.append(ctx.ok("block:Block.hash", "hash256(serialize())[::-1]", hf, hm, key="hash"))
+    else:
+        out.append(_block_hash_cells(ctx, hf, hm, r))
+    mspec = "merkleblock:MerkleBlock.parse"
+    mm, mf = rl.get(ctx, mspec)
+    reads = ReaderExec(ctx.repo, mm, mf).run()
+    ms = reader_shape(ctx.repo, mm, mf, reads)
+    d4 = diff(MERKLEBLOCK, ms)
+    out.append(ctx.ok(mspec, "reader equals BIP37 merkleblock: header ‖ total(4 LE) ‖ hashes ‖ flags", mf, mm, key="merkleblock") if d4 is None else
+               ctx.bad(mspec, "merkleblock reader differs from BIP37 at %s; reader %s" % (d4, fmt_shape(ms)), mf, mm, key="merkleblock"))
+    return out
+
+
+def _c17_5_layout(ctx):
     out = []
     wspec, rspec = "block:Block.serialize", "block:Block.parse_header"
     wm, wf = rl.get(ctx, wspec)
@@ -727,7 +836,77 @@ def c17_17(ctx):
     return [ctx.ok(spec, "target = coefficient * 256^(exponent-3) for all 256 exponent bytes x 5 coefficients (%d cells)" % cells, fn, mod, key="compact-formula")]
 
 
+def c17_18(ctx):
+    """difficulty = target(1d00ffff) / target(bits) for every exponent byte that leaves a non-zero target (3..34) x 4 coefficients -- bounded
+    evaluation; a 1e-12 relative tolerance allows another order of the floating-point operations"""
+    from sa.cells import Evaluator, Obj, Raised, Undecided
+    spec = "block:Block.difficulty"
+    mod, fn = rl.get(ctx, spec)
+    lowest = 0xFFFF * 256 ** (0x1D - 3)
+    n = 0
+    for coef in (0x00FFFF, 0x7FFFFF, 0x0404CB, 0x010000):
+        for e in range(3, 35):
+            n += 1
+            bits = coef.to_bytes(3, "little") + bytes([e])
+            target = coef * 256 ** (e - 3)
+            me = Obj("block", "Block", {"bits": bits, "version": 1, "prev_block": bytes(32), "merkle_root": bytes(32), "timestamp": 0, "nonce": bytes(4)})
+            try:
+                r = Evaluator(ctx.repo).call(spec, [], self_obj=me)
+            except Raised as x:
+                return [ctx.bad(spec, "difficulty() raises %s for bits %s" % (x.name, bits.hex()), fn, mod, key="difficulty")]
+            except Undecided as u:
+                return [ctx.err(spec, "difficulty not evaluable: %s" % u, fn, mod)]
+            want = lowest / target
+            if not isinstance(r, (int, float)) or abs(r - want) > 1e-12 * want:
+                return [ctx.bad(spec, "difficulty for bits %s (exponent %#x) is %r, target(1d00ffff) / target(bits) = %r" % (bits.hex(), e, r, want), fn, mod, key="difficulty")]
+    ctx.count("cells", n)
+    return [ctx.ok(spec, "difficulty = target(1d00ffff) / target(bits) on %d (coefficient, exponent) cells" % n, fn, mod, key="difficulty")]
+
+
+def c17_19(ctx):
+    """HeadersMessage.is_valid is decided by proof of work and linkage alone: cell evaluation over messages of 1..14 headers with
+    out-of-order timestamps (miners' clocks differ; a message is a slice of a chain, so no rule that needs ancestors outside it can be applied),
+    one header without work, one broken link; Block.check_pow / hash are stand-ins"""
+    from sa.cells import Evaluator, Obj, Raised, Undecided
+    spec = "network:HeadersMessage.is_valid"
+    mod, fn = rl.get(ctx, spec)
+    hooks = {("Block", "check_pow"): lambda b: b.attrs["pow"], ("Block", "hash"): lambda b: b.attrs["id"], ("Block", "target"): lambda b: 1 << 255,
+             ("Block", "serialize"): lambda b: b.attrs["id"]}
+
+    def chain(n, bad_pow=None, bad_link=None):
+        hs = []
+        for i in range(n):
+            prev = bytes([i]) * 32 if i else bytes([0xEE]) * 32
+            if bad_link == i:
+                prev = bytes([0x77]) * 32
+            ts = 1000 + 600 * i + (7000 if i % 5 == 1 else 0) - (900 if i % 4 == 3 else 0)
+            hs.append(Obj("block", "Block", {"id": bytes([i + 1]) * 32, "prev_block": prev, "pow": bad_pow != i, "timestamp": ts, "bits": b"\xff\xff\x7f\x20", "version": 1,
+                                             "merkle_root": bytes(32), "nonce": bytes(4)}))
+        return hs
+    cells = 0
+    try:
+        for n in range(1, 15):
+            for label, kw, want in (("valid work and linkage (timestamps out of order)", {}, True), ("one header without work", {"bad_pow": n - 1}, False),
+                                    ("a broken link", {"bad_link": n - 1} if n > 1 else None, False)):
+                if kw is None:
+                    continue
+                cells += 1
+                me = Obj("network", "HeadersMessage", {"headers": chain(n, **kw)})
+                try:
+                    r = Evaluator(ctx.repo, method_hooks=hooks).call(spec, [], self_obj=me)
+                except Raised as x:
+                    r = "raises %s" % x.name
+                if r is not want:
+                    return [ctx.bad(spec, "a message of %d header(s) with %s is reported %s" % (n, label, r), fn, mod, key="headers-verdict")]
+    except Undecided as u:
+        return [ctx.err(spec, "is_valid not evaluable: %s" % u, fn, mod)]
+    ctx.count("cells", cells)
+    return [ctx.ok(spec, "valid exactly when every header has work and links to its predecessor (%d messages of 1..14 headers)" % cells, fn, mod, key="headers-verdict")]
+
+
 OBLIGATIONS = [
+    ("C17.18", "CELLS difficulty (bounded)", c17_18),
+    ("C17.19", "CELLS headers verdict", c17_19),
     ("C17.17", "CELLS compact target (bounded)", c17_17),
     ("C17.16", "SHARED", c17_16),
     ("C17.15", "SET-ORDER", c17_15),
